@@ -165,3 +165,13 @@ Print Assumptions C05_triple_roundtrip_model_library.
 Example C05_model_library_example :
   print_pred model_library (mkPred (lit "a""@[b\	é") None) = lit """a\""@[b\\\t\xc3\xa9""@[]".
 Proof. vm_compute. reflexivity. Qed.
+
+(* the hypothesis graph_consistent of C05_graph_roundtrip holds for every graph AddTriples can build from the empty one,
+   and such a graph holds only triples that were added *)
+Theorem C05_reachable_graphs_consistent : forall (ts : list triple) (g : graph),
+  add_all [] ts = Ok g -> graph_consistent g /\ forall e, In e g -> In (snd e) ts.
+Proof.
+  intros ts g H. split; [exact (add_all_consistent ts [] g empty_consistent H)|].
+  intros e He. destruct (add_all_triples ts [] g H e He) as [[]|X]. exact X.
+Qed.
+Print Assumptions C05_reachable_graphs_consistent.
